@@ -33,3 +33,4 @@ void _ZN10QXmppUtils18generateStanzaUuidEv(char *ret) { ASSERT(0, "C07: generate
 /* ~QXmppOutgoingClient: destruction of the private object (socket, managers, ...) and of the QObject base is outside C07 */
 void _ZNKSt14default_deleteI26QXmppOutgoingClientPrivateEclEPS0_(char *self, char *p) { }
 void _ZN13QXmppLoggableD2Ev(char *self) { }
+void _ZN7QObjectD2Ev(char *self) { }
